@@ -850,14 +850,21 @@ Proof.
     + intros P [<-|[]]; apply clive_nil.
 Qed.
 
+Lemma Inv_post : forall c r, Inv (fst r) -> Inv (fst (post c r)).
+Proof.
+  intros c r H. unfold post. destruct (fx_xcache c); auto. simpl.
+  unfold Inv, inval_all in *. simpl.
+  apply (inv_clear (fun _ => true) _ _ _ _ (s_fl (fst r)) []); auto.
+Qed.
+
 Theorem Inv_step : forall c s o, InvAll s -> op_in_scope s o -> InvAll (fst (step c s o)).
 Proof.
   intros c s o (SS & IV) HO. split; [apply sorted_step; auto|].
   destruct o.
-  - unfold step. destruct (affixed s); [simpl; auto|]. destruct (has_dot nm); [simpl; auto|]. apply Inv_add; auto.
-  - unfold step. destruct (affixed s); [simpl; auto|]. destruct (has_dot nm); [simpl; auto|]. apply Inv_alias; auto.
-  - unfold step. destruct (affixed s); [simpl; auto|]. apply Inv_del; auto.
-  - unfold step. destruct (affixed s); [simpl; auto|]. destruct (has_dot new); [simpl; auto|]. apply Inv_ren; auto.
+  - unfold step. destruct (affixed s); [simpl; auto|]. destruct (has_dot nm); [simpl; auto|]. apply Inv_post. apply Inv_add; auto.
+  - unfold step. destruct (affixed s); [simpl; auto|]. destruct (has_dot nm); [simpl; auto|]. apply Inv_post. apply Inv_alias; auto.
+  - unfold step. destruct (affixed s); [simpl; auto|]. apply Inv_post. apply Inv_del; auto.
+  - unfold step. destruct (affixed s); [simpl; auto|]. destruct (has_dot new); [simpl; auto|]. apply Inv_post. apply Inv_ren; auto.
   - unfold step. destruct (affixed s); [simpl; auto|]. apply Inv_move; auto.
   - unfold step. destruct (affixed s); [simpl; auto|]. apply Inv_hide; auto.
   - simpl in HO. tauto.
